@@ -202,6 +202,35 @@ def shard(ctx):
                                   {"base": base_text, "variant": text, "data": cvd, "rel": ["same"]})
                 else:
                     ctx.res.distinct.add(("case-variant-keys", label))
+    # ---- rules that reference each other in a cycle: every ordering must meet the same fate (today: the cyclic-reference error, which makes
+    #      the group fall under the proviso); statuses that depend on which member the evaluator reaches first would show here
+    if ctx.mine(2):
+        import itertools as _it2
+        cyc_doc = json.dumps({"x": 1, "y": 2})
+        templates = [["rule a {\n    b or x == 2\n}\n", "rule b {\n    not a\n}\n", "rule c {\n    b\n}\n"],
+                     ["rule a {\n    not b\n}\n", "rule b {\n    a or y == 2\n}\n", "rule c when a {\n    x == 1\n}\n", "rule d {\n    not b or c\n}\n"],
+                     ["rule a when not b {\n    x == 1\n}\n", "rule b {\n    a or x == 1\n}\n", "rule c {\n    a\n    b\n}\n"]]
+        for ti, tpl in enumerate(templates):
+            outs = []
+            for pm in _it2.permutations(range(len(tpl))):
+                text = "".join(tpl[i] for i in pm)
+                st, _ = status_map(ctx, text, cyc_doc)
+                ctx.res.cases += 1
+                outs.append((pm, text, st))
+            errs = [o for o in outs if not isinstance(o[2], dict)]
+            if errs:
+                ctx.res.counts["cyclic_reference_groups_under_proviso"] += 1
+                ctx.res.distinct.add(("cycle", ti, "error"))
+                continue
+            base_pm, base_text, base_st = outs[0]
+            for pm, text, st in outs[1:]:
+                why = compare(base_st, st, ("same",))
+                if why:
+                    ctx.violation("order:cyclic-references", "%s\n--- base\n%s--- variant\n%s" % (why, base_text, text),
+                                  {"base": base_text, "variant": text, "data": cyc_doc, "rel": ["same"]})
+                    break
+            else:
+                ctx.res.distinct.add(("cycle", ti, "same"))
     nbase = 90 if ctx.quick else 2600
     vorders = set()
     rpatterns = set()
